@@ -137,6 +137,10 @@ func (r *run) signAll() {
 	for ki := range kmKeys {
 		kk, bk := kmKeys[ki], bpmKeys[ki]
 		for s := 0; s < nShapes; s++ {
+			forceEdge = 0
+			if s < 2 {
+				forceEdge = s + 1
+			}
 			// ---- BG 1.0 KM
 			bh := "SHA256"
 			if s%4 == 3 {
@@ -199,6 +203,7 @@ func (r *run) signAll() {
 			}
 		}
 	}
+	forceEdge = 0
 	// scheme names the tool does not offer for RSA keys must be refused, not mis-signed
 	if b, d, err := buildCbntKM(rg, pubOf(r.keys["A"]), pubOf(r.keys["B"]), cbnt.AlgSHA256, "SHA256", 0); err == nil {
 		for _, bad := range []string{"", "FOO", "SHA256", "ECDSA", "SM2", "RSA"} {
